@@ -401,19 +401,33 @@ FIXED_LAYOUTS = [
 
 # ----------------------------------------------------------------------------- statements of a tree
 
-def binding_statements(tree):
-    """(kind, name, np(node)) for every import / def / class binding, as supp/nast.py + scope.py name them"""
+def alias_start(lines, a):
+    """where supp (8033e90) starts the search for the identifier an alias binds: one column left of the alias, or of its asname
+    (re-implemented here from the sentence, columns converted from UTF-8 bytes to characters)"""
+    if a.asname:
+        ln, col = a.end_lineno, a.end_col_offset - len(a.asname.encode('utf-8'))
+    else:
+        ln, col = a.lineno, a.col_offset
+    col = len(lines[ln - 1].encode('utf-8')[:col].decode('utf-8', 'ignore'))
+    if col == 0:            # first thing on a continuation line: from the end of the line before
+        return (ln - 1, len(lines[ln - 2]))
+    return (ln, col - 1)
+
+
+def binding_statements(tree, lines=None):
+    """(kind, name, start of the search) for every import / def / class binding, as supp/nast.py + scope.py name them: np(node)
+    for def / class, the alias for imports (`lines`: the text as supp splits it; without it the statement start, as before 8033e90)"""
     out = []
     for node in ast.walk(tree):
         if isinstance(node, ast.Import):
             for a in node.names:
                 name = a.asname or a.name.partition('.')[0]
-                out.append(('import', name, (node.lineno, node.col_offset)))
+                out.append(('import', name, alias_start(lines, a) if lines is not None else (node.lineno, node.col_offset)))
         elif isinstance(node, ast.ImportFrom):
             for a in node.names:
                 name = a.asname or a.name
                 if name != '*':
-                    out.append(('importfrom', name, (node.lineno, node.col_offset)))
+                    out.append(('importfrom', name, alias_start(lines, a) if lines is not None else (node.lineno, node.col_offset)))
         elif isinstance(node, (ast.FunctionDef, ast.AsyncFunctionDef)):
             out.append(('func', node.name, (node.lineno, node.col_offset)))
         elif isinstance(node, ast.ClassDef):
